@@ -301,3 +301,19 @@ for p in ["C01", "C07", "C05"]:
 for p in ["C13", "C08"]:
     CHECKS[p]["harnesses"].append(H_VALIDATE)
 CHECKS["C17"]["harnesses"].append(H_PLSHUT)
+
+H_FSCRASH = {"fn": "vh_filesnap_crash", "what": "FileSnapshotStore Create+Write+Close or Cancel with a crash before any one of its file-system steps (or none), over 0-1(2) pre-existing durable snapshots, retain 1..2; "
+             "then a fresh store's List/Open on every possible post-crash disk state", "bounds_quick": "<=1 pre-existing snapshot, 18 crash points, one Write", "bounds_thorough": "<=2 pre-existing snapshots",
+             "covers": ["filesnap.crashed", "filesnap.closed-ok", "filesnap.cancelled", "filesnap.interrupted-but-complete"], "thorough": {"max_paths": 400000}}
+H_FSCORRUPT = {"fn": "vh_filesnap_corrupt", "what": "bit rot in a durable state.bin or meta.json, then List/Open", "bounds": "one snapshot", "covers": ["filesnap.corrupt-open-fails", "filesnap.corrupt-open-ok"]}
+CHECKS["C15"] = {
+    "only": ["C15."],
+    "explanation": "C15: the real FileSnapshotStore code (Create, Write, Close, Cancel, finalize, writeMeta, List, getSnapshots, readMeta, Open, ReapSnapshots, snapMetaSlice) runs over a file-system MODEL (engine/sym/fs.go): "
+                   "a crash is scheduled before each file-system call in turn; the post-crash disk keeps, per directory, a prefix of the not-yet-durable entry operations and, per file with unsynced data, old / new / torn content (all combinations forked); "
+                   "then a fresh store must list only snapshots that open with exactly the written content (checksum verified), newest first, at most `retain`; a Close that returned nil is listed unless `retain` newer ones exist; a cancelled one never; the newest pre-existing ones survive.",
+    "outside": "real file-system semantics beyond the model; Windows; more than one Write call; the constructor's permission test; noSync=true",
+    "assumptions": ["FILE-SYSTEM MODEL: fsync(file) makes the file's data and its own directory entry durable; fsync(directory) makes all its pending entry operations durable; un-synced directory operations reach disk in order (a prefix survives a crash); un-synced file data is old, new or torn after a crash",
+                    "no CRC-64 collisions among the contents a path looks at; json encode/decode is an abstract bijection (a torn or empty file does not decode); bufio.Writer is modelled as a pending list flushed by Flush",
+                    "snapshotName returns pairwise distinct names (snap-1, snap-2, ...) instead of term-index-milliseconds"],
+    "harnesses": [H_FSCRASH, H_FSCORRUPT],
+}
